@@ -145,15 +145,16 @@ fn mmr_leaf(seed: u64, i: u64) -> Word {
 }
 
 pub fn run_mmr(line: &str) -> String {
-    let t: Vec<u64> = line.split_whitespace().map(|x| x.parse().unwrap()).collect();
+    let t: Vec<u64> = line.split_whitespace().filter(|x| *x != "c").map(|x| x.parse().unwrap()).collect();
     let (ptr, ptr2, n, seed) = (t[0], t[1], t[2], t[3]);
-    if t.len() > 4 {
+    let in_call = line.split_whitespace().nth(4) == Some("c");
+    if t.len() > 4 && !in_call {
         return run_mmr_fake(ptr, ptr2, n, seed);
     }
     let res = catch_unwind(AssertUnwindSafe(|| {
         let mut mmr = Mmr::new();
         let leaves: Vec<Word> = (0..n).map(|i| mmr_leaf(seed, i)).collect();
-        let mut src = String::from("use.std::collections::mmr\nbegin\n");
+        let mut src = String::from(if in_call { "use.std::collections::mmr\nproc.body\n" } else { "use.std::collections::mmr\nbegin\n" });
         for l in &leaves {
             mmr.add((*l).into());
             let v = ints(l);
@@ -170,6 +171,10 @@ pub fn run_mmr(line: &str) -> String {
             src.push_str(&format!("push.{ptr2} movdn.4 exec.mmr::unpack\n"));
         }
         src.push_str("end\n");
+        if in_call {
+            // the whole scenario runs in the fresh context of a called procedure
+            src.push_str("begin call.body end\n");
+        }
         let program = match assembler().compile(&src) {
             Ok(p) => p,
             Err(e) => return format!("ASMERR {e:?}"),
@@ -182,7 +187,14 @@ pub fn run_mmr(line: &str) -> String {
             Ok(o) => o,
             Err(e) => return format!("ERR {}", err_string(&e)),
         };
-        let mem = |a: u64| -> Word { process.get_mem_value(ContextId::root(), a as u32).unwrap_or(EMPTY_WORD) };
+        // the context whose memory holds the scenario: the root, or the callee's (the only other one)
+        let ctx = if in_call {
+            let clk = process.clk();
+            (1..=clk).map(ContextId::from).find(|c| !process.get_mem_state(*c).is_empty()).unwrap_or(ContextId::root())
+        } else {
+            ContextId::root()
+        };
+        let mem = |a: u64| -> Word { process.get_mem_value(ctx, a as u32).unwrap_or(EMPTY_WORD) };
         let acc = mmr.peaks(mmr.forest()).unwrap();
         let peaks: Vec<Word> = acc.peaks().iter().map(|d| (*d).into()).collect();
         let check_at = |p: u64| -> (bool, bool, bool) {
